@@ -361,6 +361,51 @@ def readPtsLines (L : Lex) : List Line → Except Err (List PtsPoint)
 
 def readPts (L : Lex) (bs : List UInt8) : Except Err (List PtsPoint) := readPtsLines L (scanLines bs)
 
+/-! ## iteration counts
+
+  The loops above are structural recursions: every call either stops or recurses on a strictly shorter
+  input (the tail of the line list; the bytes after a record).  The functions below count the iterations
+  of the same recursions (same case analysis, results dropped), so that "the number of iterations is
+  bounded by the size of the input" is a statement (`Props/C14.lean: reader_steps_linear_*`).
+  `Splat.readRecs` carries its own counter. -/
+
+/-- iterations of `readArrays`: one per read attempted -/
+def readArraysSteps : List Nat → List UInt8 → Nat
+  | [], _ => 0
+  | n :: ns, bs => if n ≤ bs.length then 1 + readArraysSteps ns (bs.drop n) else 1
+
+/-- iterations of the vertex loop `asciiVerts` (one `scanner.Scan()` each) -/
+def asciiVertsSteps (L : Lex) (nprops : Nat) : List Line → Nat → Nat
+  | _, 0 => 0
+  | [], _ + 1 => 1
+  | l :: ls, n + 1 =>
+    if l.blank then 1 + asciiVertsSteps L nprops ls (n + 1)
+    else if l.toks.length < nprops then 1
+    else if !((l.toks.take nprops).all L.floatOk) then 1
+    else 1 + asciiVertsSteps L nprops ls n
+
+/-- iterations of the face loop `asciiFaces` -/
+def asciiFacesSteps (L : Lex) (f : FaceHdr) : List Line → Nat → Nat
+  | _, 0 => 0
+  | [], _ + 1 => 1
+  | l :: ls, n + 1 =>
+    if l.blank then 1 + asciiFacesSteps L f ls (n + 1)
+    else
+      match asciiFaceLine L f 0 f.lists.length l.toks none with
+      | .error _ => 1
+      | .ok _ => 1 + asciiFacesSteps L f ls n
+
+/-- iterations of the point loop `ptsLoop` -/
+def ptsLoopSteps (L : Lex) : List Line → Nat → Option Nat → Nat
+  | _, 0, _ => 0
+  | [], _ + 1, _ => 1
+  | l :: ls, n + 1, fpp =>
+    if l.toks.isEmpty then 1
+    else if l.toks.length < 3 then 1
+    else if (match fpp with | some k => l.toks.length != k | none => false) then 1
+    else if !ptsTokensOk L l.toks then 1
+    else ptsLoopSteps L ls n (some l.toks.length) + 1
+
 /-! ## Go number syntax (decimal subset) for the driver -/
 
 def isDigit (b : UInt8) : Bool := 48 ≤ b && b ≤ 57
